@@ -459,6 +459,72 @@ theorem reg_changes_post_none (isa : Isa) (db : List IsaEntry) (name : Txt) (sem
       cases hbm : m'.base <;> simp [this, ih hxs]
     | _ => simp [ih hxs]
 
+/-- **post-index by a register** (`ld1 {v0.4s}, [x0], x1`, `st1 {v0.16b}, [x2], x3`: `post_indexed` is the parser's
+    dictionary WITHOUT a `"value"` key, `Val.absent`): the post-indexed query reports the base register as changed by an
+    unknown amount, `{base: None}`, and nothing else — for EVERY base register `b` and EVERY such operand `o` (the
+    index register is not read by the query at all: it is part of the operand's identity `o.key` only, and `o` is
+    arbitrary), at any operand position behind operands that are not post-indexed.  In particular the query is not
+    an error: before the repair of `get_reg_changes` it evaluated `post_indexed["value"]` and raised `KeyError`. -/
+theorem reg_changes_post_register (isa : Isa) (db : List IsaEntry) (name : Txt) (sem : Sem) (pre : List Opnd) (o : Opnd)
+    (rest : List Opnd) (m : PMem) (b : PReg)
+    (hpre : ∀ x ∈ pre, ∀ m', x.p = .mem m' → m'.post = false)
+    (ho : o.p = .mem m) (hb : m.base = some b) (hpost : m.post = true) (hv : o.postVal = .absent) :
+    regChanges isa db (some name) (pre ++ o :: rest) sem true = .ok [(fullName b.pfx b.name, none)] := by
+  simp only [regChanges, if_true]
+  induction pre with
+  | nil => simp [postChange, ho, hb, hpost, hv]
+  | cons x xs ih =>
+    have hx := hpre x (by simp)
+    have hxs : ∀ y ∈ xs, ∀ m', y.p = .mem m' → m'.post = false := fun y hy => hpre y (by simp [hy])
+    simp only [List.cons_append, postChange]
+    cases hp : x.p with
+    | mem m' =>
+      have := hx m' hp
+      cases hbm : m'.base <;> simp [this, ih hxs]
+    | _ => simp [ih hxs]
+
+/-- **the post-indexed query never raises**: for ALL instructions and operand lists its only failure is a value
+    outside the model (`Val.other`: a `"value"` that is not an integer — the parser produces none); `KeyError`,
+    `TypeError`, … are unreachable.  (With the unrepaired code the statement is false: see `valInt .absent`.) -/
+theorem reg_changes_post_error (isa : Isa) (db : List IsaEntry) (mn : Option Txt) (ops : List Opnd) (sem : Sem) (e : Err)
+    (h : regChanges isa db mn ops sem true = .error e) : e = .unsupported ∧ ∃ o ∈ ops, o.postVal = .other := by
+  cases mn with
+  | none => simp [regChanges] at h
+  | some name =>
+    simp only [regChanges, if_true] at h
+    induction ops with
+    | nil => simp [postChange] at h
+    | cons x xs ih =>
+      have lift : (e = .unsupported ∧ ∃ o ∈ xs, o.postVal = .other) → e = .unsupported ∧ ∃ o ∈ x :: xs, o.postVal = .other :=
+        fun ⟨h1, o, ho, h2⟩ => ⟨h1, o, List.mem_cons_of_mem _ ho, h2⟩
+      simp only [postChange] at h
+      cases hp : x.p with
+      | mem m =>
+        simp only [hp] at h
+        cases hbm : m.base with
+        | none => simp only [hbm] at h; exact lift (ih h)
+        | some b =>
+          cases hpo : m.post with
+          | false => simp only [hbm, hpo] at h; exact lift (ih h)
+          | true =>
+            simp only [hbm, hpo] at h
+            cases hv : x.postVal with
+            | absent => simp [hv] at h
+            | int v => simp [hv, valInt] at h
+            | none => simp [hv, valInt] at h
+            | other =>
+              simp only [hv, valInt] at h
+              injection h with h
+              exact ⟨h.symm, x, by simp, hv⟩
+      | _ => simp only [hp] at h; exact lift (ih h)
+
+/-- … in particular no `KeyError: 'value'`, whatever the operands are -/
+theorem reg_changes_post_no_key_error (isa : Isa) (db : List IsaEntry) (mn : Option Txt) (ops : List Opnd) (sem : Sem) :
+    regChanges isa db mn ops sem true ≠ .error .keyError := by
+  intro h
+  have := (reg_changes_post_error isa db mn ops sem _ h).1
+  cases this
+
 /-- a line without an instruction changes nothing -/
 theorem reg_changes_no_instruction (isa : Isa) (db : List IsaEntry) (ops : List Opnd) (sem : Sem) (b : Bool) :
     regChanges isa db none ops sem b = .ok [] := rfl
@@ -755,6 +821,62 @@ theorem a64_add_imm_changes_all (d s : Txt) (n : Int) :
     simp [bindOperands, oImmA64, oA64, pImmA64, pA64, valInt, nameGet, nameSet, statePut, fullName, exec, step, eval,
       IsaOp.get, IsaOp.set, arith, pick, indexed, indexedFrom, isDst, isSrcDst, destName, dedupKeys, changeOf, tX,
       hne, show Gen.opIndexBase = 1 from rfl, show Gen.regInitValue = 0 from rfl]
+
+/-! ## post-index by a register: `ld1 {vV.4s}, [xB], xI` for ALL registers -/
+
+def nLd1 : Txt := [108, 100, 49]         -- "ld1"
+def nSt1 : Txt := [115, 116, 49]         -- "st1"
+def tV : Txt := [118]                     -- "v"
+
+/-- `vN.4s` (a one-element register list is expanded to its member by the parser) -/
+def pV4s (n : Txt) : POperand := .reg { name := n, pfx := some tV, shape := some [115], lanes := some [52] }
+def oV4s (n : Txt) : Opnd := { p := pV4s n, key := 118 :: n }
+/-- `[xB], xI`: post-indexed by the register `xI` — `post_indexed` is a dictionary without `"value"`;
+    the index register shows in the operand's identity only -/
+def pMemPost (b : Txt) : POperand :=
+  .mem { base := some { name := b, pfx := some tX }, offset := .none, index := none, scale := 1, pre := false, post := true }
+def oMemPostReg (b i : Txt) : Opnd := { p := pMemPost b, key := 109 :: (b ++ 44 :: i), postVal := .absent }
+
+/-- **`ld1 {vV.4s}, [xB], xI` for ALL registers V, B, I** (isa/aarch64.yml has no entry for `ld1`: default roles):
+    the vector register is the destination, the memory operand the source (`HAS_LD`), and the base `xB` is appended
+    to `src_dst` with the post-index mark — it is read AND written, so dependency edges through the written-back
+    base exist and carry `p_index_latency`; the post-indexed query reports `xB` as changed by an unknown amount
+    (`{xB: None}`, never an error); the full query leaves the base out and reports the loaded register as unknown. -/
+theorem a64_ld1_post_register_all (v b i : Txt) :
+    assignSrcDst .a64 Gen.isaDbA64 (some nLd1) [oV4s v, oMemPostReg b i] =
+      { sem := { src := [.op 1 (oMemPostReg b i)], dst := [.op 0 (oV4s v)],
+                 srcDst := [.wb 1 { name := b, pfx := some tX } false true .absent] },
+        hasLd := true, hasSt := false } ∧
+    regChanges .a64 Gen.isaDbA64 (some nLd1) [oV4s v, oMemPostReg b i]
+        (assignSrcDst .a64 Gen.isaDbA64 (some nLd1) [oV4s v, oMemPostReg b i]).sem true = .ok [(120 :: b, none)] ∧
+    regChanges .a64 Gen.isaDbA64 (some nLd1) [oV4s v, oMemPostReg b i]
+        (assignSrcDst .a64 Gen.isaDbA64 (some nLd1) [oV4s v, oMemPostReg b i]).sem false = .ok [(118 :: v, none)] := by
+  have hk : lookup .a64 Gen.isaDbA64 nLd1 [pV4s [48], pMemPost [49]] = none ∧
+      lookup .a64 Gen.isaDbA64 nLd1 (substituteMem [pV4s [48], pMemPost [49]]) = none := by
+    constructor <;> decide +kernel
+  have h1 : lookup .a64 Gen.isaDbA64 nLd1 ([oV4s v, oMemPostReg b i].map (·.p)) = none := by
+    have := lookup_a64_rename (fun t => if t = [48] then v else b) Gen.isaDbA64 nLd1 [pV4s [48], pMemPost [49]]
+    rw [hk.1] at this
+    simpa [renameP, renameR, pV4s, pMemPost, oV4s, oMemPostReg] using this
+  have h2 : lookup .a64 Gen.isaDbA64 nLd1 (substituteMem ([oV4s v, oMemPostReg b i].map (·.p))) = none := by
+    have := lookup_a64_rename (fun t => if t = [48] then v else b) Gen.isaDbA64 nLd1 (substituteMem [pV4s [48], pMemPost [49]])
+    rw [hk.2] at this
+    simpa [renameP, renameR, pV4s, pMemPost, oV4s, oMemPostReg, substituteMem] using this
+  have hsem : (assignSrcDst .a64 Gen.isaDbA64 (some nLd1) [oV4s v, oMemPostReg b i]).sem =
+      { src := [.op 1 (oMemPostReg b i)], dst := [.op 0 (oV4s v)],
+        srcDst := [.wb 1 { name := b, pfx := some tX } false true .absent] } := by
+    simp only [assignSrcDst, semOf, roles_default_iff _ _ _ _ h1 h2,
+      roles_spec_default_a64 (oV4s v) [oMemPostReg b i] (by simp)]
+    simp [writeBack, wbOf, indexedFrom, oMemPostReg, pMemPost, oV4s, pV4s]
+  refine ⟨?_, ?_, ?_⟩
+  · have hs := hsem
+    simp only [assignSrcDst] at hs ⊢
+    rw [hs]
+    simp [hasLoad, hasStore, isMem, isMemP, oMemPostReg, pMemPost, oV4s, pV4s]
+  · exact reg_changes_post_register .a64 Gen.isaDbA64 nLd1 _ [oV4s v] (oMemPostReg b i) [] _ { name := b, pfx := some tX }
+      (by simp [oV4s, pV4s]) rfl rfl rfl rfl
+  · rw [reg_changes_unknown .a64 Gen.isaDbA64 nLd1 _ _ (by rw [h1]; rfl) (by simp [oV4s, pV4s, oMemPostReg, pMemPost]), hsem]
+    simp [destNames, destName, oV4s, pV4s, fullName, tV, dedupKeys]
 
 /-! ## the pre-indexed write-back -/
 
@@ -1072,6 +1194,29 @@ example : regChanges .a64 Gen.isaDbA64 (some nLdr) [oA64 [49], oMemPost]
 example : regChanges .a64 Gen.isaDbA64 (some nLdr) [oA64 [49], oMemPre]
       (assignSrcDst .a64 Gen.isaDbA64 (some nLdr) [oA64 [49], oMemPre]).sem false =
     .ok [(120 :: [49], none), (120 :: [50], some ⟨some (120 :: [50]), some 8⟩)] := by decide +kernel
+-- reg_changes_post_register / a64_ld1_post_register_all: `ld1 {v0.4s}, [x0], x1` on the shipped database — the base x0 is
+-- written back (src_dst, post-index mark), the post-indexed query answers `{x0: None}` and is not an error
+example : (assignSrcDst .a64 Gen.isaDbA64 (some nLd1) [oV4s [48], oMemPostReg [48] [49]]) =
+    { sem := { src := [.op 1 (oMemPostReg [48] [49])], dst := [.op 0 (oV4s [48])],
+               srcDst := [.wb 1 { name := [48], pfx := some tX } false true .absent] },
+      hasLd := true, hasSt := false } := by decide +kernel
+example : regChanges .a64 Gen.isaDbA64 (some nLd1) [oV4s [48], oMemPostReg [48] [49]]
+      (assignSrcDst .a64 Gen.isaDbA64 (some nLd1) [oV4s [48], oMemPostReg [48] [49]]).sem true =
+    .ok [(120 :: [48], none)] := by decide +kernel
+-- `st1 {v0.4s}, [x2], x3` (no entry either; the code's default roles put the vector register into `destination`)
+example : regChanges .a64 Gen.isaDbA64 (some nSt1) [oV4s [48], oMemPostReg [50] [51]]
+      (assignSrcDst .a64 Gen.isaDbA64 (some nSt1) [oV4s [48], oMemPostReg [50] [51]]).sem true =
+    .ok [(120 :: [50], none)] := by decide +kernel
+-- the hypotheses of reg_changes_post_register at a later operand position: `ldr x1, [x2], x9` behind a register
+example : (∀ x ∈ [oA64 [49]], ∀ m', x.p = .mem m' → m'.post = false) ∧ (oMemPostReg [50] [57]).postVal = .absent := by
+  constructor
+  · intro x hx m' hm; simp [oA64, pA64] at hx; subst hx; cases hm
+  · rfl
+-- what the unrepaired code did with the same operand: `post_indexed["value"]` on a dictionary without that key
+example : valInt (oMemPostReg [48] [49]).postVal = .error .keyError := rfl
+-- reg_changes_post_error: a `"value"` that is not an integer is the only failure of the post-indexed query
+example : regChanges .a64 Gen.isaDbA64 (some nLd1) [oV4s [48], { oMemPostReg [48] [49] with postVal := .other }] {} true =
+    .error .unsupported := by decide +kernel
 -- reg_changes_no_value_error needs its hypothesis: an operation on a memory form does raise for a pre-indexed access
 def badDb : List IsaEntry :=
   [{ e := { name := [76, 68, 82], operands := [.reg none (some tX) none, .mem (.str [42]) (.str [42]) (.str [42]) (.str [42]) (.str [42]) (.str [42])] },
